@@ -168,7 +168,9 @@ func (d *differ) action(path string, want, got *workflow.Action) {
 	d.val("action.timeout", path, want.Timeout, got.Timeout)
 	d.val("action.retries", path, want.Retries, got.Retries)
 	if d.opt.ReqByJSON {
-		if !JSONEquiv(want.Req, got.Req) {
+		// equal when structurally identical (byte for byte in every string) or, for values behind interface-typed
+		// fields, when both encode to the same JSON
+		if !EquivValues(want.Req, got.Req) && !JSONEquiv(want.Req, got.Req) {
 			d.add("action.req", path, describe(want.Req), describe(got.Req))
 		}
 	} else if !EquivValues(want.Req, got.Req) {
